@@ -2,6 +2,8 @@
 //! A scenario drives the real `humphrey::thread::pool::ThreadPool` through a lifecycle script with
 //! harness tasks that append to an event log; `check` is the offline oracle over that log.
 
+use humphrey::monitor::event::{EventLevel, EventType};
+use humphrey::monitor::MonitorConfig;
 use humphrey::thread::pool::ThreadPool;
 use std::sync::atomic::{AtomicBool, AtomicUsize, Ordering};
 use std::sync::{Arc, Barrier, Mutex};
@@ -12,6 +14,8 @@ pub enum TaskKind {
     Yield,
     Spin,
     Sleep,
+    /// sleeps longer than the pool's 100 ms overload threshold (tasks queued behind it count as overloaded)
+    LongSleep,
     PanicBefore,
     PanicAfter,
 }
@@ -43,6 +47,16 @@ pub struct Scenario {
     pub n: usize,
     pub tasks: Vec<TaskKind>,
     pub script: Script,
+    /// a monitor subscribed to every event is registered on the pool (tasks string starts with `M`)
+    pub monitor: bool,
+}
+
+impl Scenario {
+    /// `tasks`: one character per task (see `kind_from`), optionally preceded by `M` = register a monitor.
+    pub fn parse(n: usize, tasks: &str, script: Script) -> Scenario {
+        let monitor = tasks.starts_with('M');
+        Scenario { n, tasks: tasks.trim_start_matches('M').chars().map(kind_from).collect(), script, monitor }
+    }
 }
 
 #[derive(Clone, Debug, PartialEq)]
@@ -100,6 +114,7 @@ fn make_task(log: Arc<Log>, id: usize, kind: TaskKind, env: &'static dyn Env) ->
                 std::hint::black_box(x);
             }
             TaskKind::Sleep => env.pause(300),
+            TaskKind::LongSleep => env.pause(130_000),
             TaskKind::PanicBefore => {
                 log.running.fetch_sub(1, Ordering::SeqCst);
                 log.push(Ev::Panic(id));
@@ -129,6 +144,8 @@ pub struct Outcome {
     /// waiting for the log gave up (native watchdog)
     pub gave_up: Option<String>,
     pub max_running: usize,
+    /// monitor events received, by kind (only when a monitor was registered)
+    pub monitor_events: Vec<(String, u64)>,
 }
 
 fn wait_done(log: &Log, want: usize, env: &dyn Env) -> bool {
@@ -145,19 +162,27 @@ fn wait_done(log: &Log, want: usize, env: &dyn Env) -> bool {
 
 /// Runs the lifecycle script on the calling thread. `returned` is set when the script has finished.
 pub fn run(sc: &Scenario, env: &'static dyn Env, log: Arc<Log>, returned: Arc<AtomicBool>) -> Outcome {
-    let mut out = Outcome { events: Vec::new(), submitted: 0, barrier_ids: Vec::new(), lifecycle_returned: false, gave_up: None, max_running: 0 };
+    let mut out = Outcome { events: Vec::new(), submitted: 0, barrier_ids: Vec::new(), lifecycle_returned: false, gave_up: None, max_running: 0, monitor_events: Vec::new() };
     let mut pool = ThreadPool::new(sc.n);
+    let (mtx, mrx) = std::sync::mpsc::channel();
+    let register = |pool: &mut ThreadPool| {
+        if sc.monitor {
+            pool.register_monitor(MonitorConfig::new(mtx.clone()).with_subscription_to(EventLevel::Debug));
+        }
+    };
     let ntasks = sc.tasks.len();
     match sc.script {
         Script::NeverStarted => {
             drop(pool);
         }
         Script::StartStopDrop => {
+            register(&mut pool);
             pool.start();
             pool.stop();
             drop(pool);
         }
         _ => {
+            register(&mut pool);
             pool.start();
             let restart = matches!(sc.script, Script::RestartStopDrop | Script::RestartDrop);
             let first_half = if restart { ntasks / 2 } else { ntasks };
@@ -170,6 +195,7 @@ pub fn run(sc: &Scenario, env: &'static dyn Env, log: Arc<Log>, returned: Arc<At
                     out.gave_up = Some("tasks of the first run did not all execute".into());
                 }
                 pool.stop();
+                register(&mut pool);
                 pool.start();
                 for (id, k) in sc.tasks.iter().enumerate().skip(first_half) {
                     pool.execute(make_task(log.clone(), id, *k, env));
@@ -216,6 +242,22 @@ pub fn run(sc: &Scenario, env: &'static dyn Env, log: Arc<Log>, returned: Arc<At
     // already-queued tasks must still finish after stop/drop
     if out.gave_up.is_none() && !wait_done(&log, out.submitted, env) {
         out.gave_up = Some("tasks queued before stop/drop never ran".into());
+    }
+    if sc.monitor {
+        let mut counts: Vec<(String, u64)> = Vec::new();
+        while let Ok(ev) = mrx.try_recv() {
+            let k = match ev.kind {
+                EventType::ThreadPoolOverload => "overload",
+                EventType::ThreadPoolPanic => "panic",
+                EventType::ThreadRestarted => "restarted",
+                _ => "other",
+            };
+            match counts.iter_mut().find(|c| c.0 == k) {
+                Some(c) => c.1 += 1,
+                None => counts.push((k.to_string(), 1)),
+            }
+        }
+        out.monitor_events = counts;
     }
     out.events = log.events.lock().unwrap().clone();
     out.max_running = log.max_running.load(Ordering::SeqCst);
@@ -325,6 +367,7 @@ pub fn kind_from(c: char) -> TaskKind {
         'y' => TaskKind::Yield,
         's' => TaskKind::Spin,
         'z' => TaskKind::Sleep,
+        'L' => TaskKind::LongSleep,
         'p' => TaskKind::PanicBefore,
         'q' => TaskKind::PanicAfter,
         _ => TaskKind::Ret,
@@ -334,6 +377,7 @@ pub fn kind_from(c: char) -> TaskKind {
 pub fn kind_char(k: TaskKind) -> char {
     match k {
         TaskKind::Ret => 'r',
+        TaskKind::LongSleep => 'L',
         TaskKind::Yield => 'y',
         TaskKind::Spin => 's',
         TaskKind::Sleep => 'z',
